@@ -2,6 +2,8 @@ import PkgModel.Generated.PySrc
 import PkgModel.PyMarker
 import PkgProofs.Lemmas.PyRt
 import PkgProofs.Lemmas.MarkerEval
+import PkgProofs.Lemmas.SrcRobust
+import PkgProofs.Lemmas.SrcLoops
 /-!
 # Translated source of the evaluation part of `packaging/markers.py` = the model (`Mk.evalOp`, `Mk.normalize`,
 `Mk.lookupEnv`, `Mk.evalMarkers`, `Mk.buildEnv`, `Mk.evaluate`)
@@ -259,19 +261,22 @@ theorem operators_tail (lhs op rhs : Str) :
     simp only [Option.isSome_some, if_true, isNone_fn_ref, _operators__call_str, h, Bool.false_eq_true, if_false]
     cases Mk.applyOp id lhs rhs <;> rfl
 
+/-- `_eval_op`: symbolic evaluation over the four things the outcome depends on (is `op + rhs` a specifier, does it contain
+`lhs` / is `lhs` a version, is `op` in the table, does the plain comparison apply) — independent of whether the first `try`
+uses `else` or a sentinel, and of how the table is consulted (`.get(k) is None`, `k not in T` and `T[k]`) -/
 theorem _eval_op_eq_model (O : PyMk.Oracle) (lhs op rhs : Str) :
     Gen.PySrc._eval_op O.ext (.str lhs) (ofOp op) (.str rhs) = ofRes PyVal.bool (Mk.evalOp O.toExt lhs op rhs) := by
   unfold Gen.PySrc._eval_op Mk.evalOp
-  simp only [Op.serialize_ofOp, ok_bind, str_join_empty_pair, ext_Specifier, operators_tail, Oracle.toExt]
   have c1 : catches "InvalidSpecifier" "InvalidSpecifier" = true := by decide
   have c2 : catches "InvalidVersion" "InvalidVersion" = true := by decide
-  cases hs : O.specOk (op ++ rhs) with
-  | false => simp [c1] <;> rfl
-  | true =>
-    simp only [if_true, ok_bind, stateT_pure_apply, tryCatch_ok', ext_contains]
-    cases hc : O.specContains (op ++ rhs) lhs with
-    | none => simp [c2] <;> rfl
-    | some b => simp [ofRes]
+  have hso : ∀ s, isNone (specObj s) = false := fun _ => rfl
+  simp only [Op.serialize_ofOp, ok_bind, str_join_empty_pair, ext_Specifier, Oracle.toExt]
+  cases hs : O.specOk (op ++ rhs) <;> cases hc : O.specContains (op ++ rhs) lhs <;>
+    cases hl : Gen.MarkerTok.opTable.lookup op <;>
+    (try (rename_i id; cases ha : Mk.applyOp id lhs rhs)) <;>
+    src_simp [hs, hc, hl, c1, c2, hso, ext_contains, _operators__get_str, _operators__call_str, isNone_fn_ref, ofRes, excName,
+      pure, Except.pure, bind, Except.bind] <;>
+    (try simp_all [ofRes, excName]) <;> (try rfl)
 
 /-! ## `_normalize`, `_get_env` -/
 
@@ -316,11 +321,9 @@ theorem ofMs_eq_map (l : List Mk.M) : ofMs l = l.map ofM := by
   | nil => rfl
   | cons m ms ih => simp [ofMs, ih]
 
-/-- the mutable locals of the loop: `lhs, op, rhs, environment_key, lhs_value, rhs_value, groups` -/
-abbrev LSt := PyVal × PyVal × PyVal × PyVal × PyVal × PyVal × PyVal
-
-/-- the local `groups` -/
-abbrev LSt.groups (s : LSt) : PyVal := s.2.2.2.2.2.2
+/-- the mutable locals of the loop (`lhs, op, rhs, environment_key, lhs_value, rhs_value, …, groups`): any tuple whose last
+component is the local `groups` (declared last); how many temporaries precede it is irrelevant -/
+abbrev groupsOf {σ : Type} [LastPy σ] (s : σ) : PyVal := LastPy.last s
 
 def ofGroups (gs : List (List Bool)) : PyVal := .list (gs.map fun g => .list (g.map .bool))
 
@@ -349,17 +352,17 @@ theorem evalLoop_cons (ν : Mk.Atom → Mk.Res Bool) (m : Mk.M) (rest : List Mk.
     · split <;> rfl
 
 /-- one iteration of the translated loop agrees with the model's -/
-def MkStepSpec (ν : Mk.Atom → Mk.Res Bool) (body : PyVal → LSt → M (ForInStep LSt)) (m : Mk.M) : Prop :=
-  ∀ (s : LSt) (done : List (List Bool)) (cur : List Bool), s.groups = ofGroups (done ++ [cur]) →
+def MkStepSpec {σ : Type} [LastPy σ] (ν : Mk.Atom → Mk.Res Bool) (body : PyVal → σ → M (ForInStep σ)) (m : Mk.M) : Prop :=
+  ∀ (s : σ) (done : List (List Bool)) (cur : List Bool), groupsOf s = ofGroups (done ++ [cur]) →
     match stepRes ν m done cur with
-    | .ok p => ∃ s', body (ofM m) s = .ok (.yield s') ∧ s'.groups = ofGroups (p.1 ++ [p.2])
+    | .ok p => ∃ s', body (ofM m) s = .ok (.yield s') ∧ groupsOf s' = ofGroups (p.1 ++ [p.2])
     | .error e => body (ofM m) s = .error (excName e)
 
-theorem evalLoop_forIn (ν : Mk.Atom → Mk.Res Bool) (body : PyVal → LSt → M (ForInStep LSt)) (items : List Mk.M)
+theorem evalLoop_forIn {σ : Type} [LastPy σ] (ν : Mk.Atom → Mk.Res Bool) (body : PyVal → σ → M (ForInStep σ)) (items : List Mk.M)
     (hstep : ∀ m ∈ items, MkStepSpec ν body m) :
-    ∀ (s : LSt) (done : List (List Bool)) (cur : List Bool), s.groups = ofGroups (done ++ [cur]) →
+    ∀ (s : σ) (done : List (List Bool)) (cur : List Bool), groupsOf s = ofGroups (done ++ [cur]) →
       match Mk.evalLoop ν items done cur with
-      | .ok gs => ∃ s', forIn (ofMs items) s body = .ok s' ∧ s'.groups = ofGroups gs
+      | .ok gs => ∃ s', forIn (ofMs items) s body = .ok s' ∧ groupsOf s' = ofGroups gs
       | .error e => forIn (ofMs items) s body = .error (excName e) := by
   induction items with
   | nil =>
@@ -398,10 +401,10 @@ theorem any_all_groups (gs : List (List Bool)) :
     simp [all_]
 
 /-- the loop followed by what only looks at `groups` -/
-theorem evalLoop_forIn_bind (ν : Mk.Atom → Mk.Res Bool) (body : PyVal → LSt → M (ForInStep LSt)) (items : List Mk.M)
-    (k : LSt → M PyVal) (s : LSt)
-    (hs : s.groups = ofGroups [[]])
-    (hk : ∀ s' gs, s'.groups = ofGroups gs → k s' = .ok (.bool (Mk.anyAll gs)))
+theorem evalLoop_forIn_bind {σ : Type} [LastPy σ] (ν : Mk.Atom → Mk.Res Bool) (body : PyVal → σ → M (ForInStep σ)) (items : List Mk.M)
+    (k : σ → M PyVal) (s : σ)
+    (hs : groupsOf s = ofGroups [[]])
+    (hk : ∀ s' gs, groupsOf s' = ofGroups gs → k s' = .ok (.bool (Mk.anyAll gs)))
     (hstep : ∀ m ∈ items, MkStepSpec ν body m) :
     (forIn (ofMs items) s body >>= k) = ofRes PyVal.bool (Mk.evalMarkers ν items) := by
   have := evalLoop_forIn ν body items hstep s [] [] hs
@@ -471,12 +474,11 @@ theorem _evaluate_markers__fuel_eq_model (O : PyMk.Oracle) (d : List (PyVal × P
     apply evalLoop_forIn_bind
     · rfl
     · intro s' gs hg
-      simp only [LSt.groups] at hg
+      simp only [groupsOf, LastPy.last] at hg
       simp only [hg, any_all_groups]
     · intro m hm s done cur hs
-      obtain ⟨a1, a2, a3, a4, a5, a6, g⟩ := s
-      simp only [LSt.groups] at hs
-      subst hs
+      simp only [groupsOf, LastPy.last] at hs
+      simp only [hs]
       cases m with
       | list l' =>
         have hsz : sizeL (ofMs l') < n := by
@@ -490,7 +492,7 @@ theorem _evaluate_markers__fuel_eq_model (O : PyMk.Oracle) (d : List (PyVal × P
           ofGroups_snoc, getitem_list_last, ok_bind, setitem_list_last, Mk.evalMarkers]
         cases Mk.evalLoop (Mk.evalAtom O.toExt e) l' [] [] with
         | error x => rfl
-        | ok gs => exact ⟨_, rfl, by simp [LSt.groups, Except.map]⟩
+        | ok gs => exact ⟨_, rfl, by simp [groupsOf, LastPy.last, Except.map]⟩
       | atom a =>
         obtain ⟨lhs, op, rhs⟩ := a
         simp only [ofM, ofAtom, stepRes, Mk.evalItem, isinstance_tuple]
@@ -508,7 +510,7 @@ theorem _evaluate_markers__fuel_eq_model (O : PyMk.Oracle) (d : List (PyVal × P
             generalize Mk.normalize O.toExt v rhs.value k = N
             cases Mk.evalOp O.toExt N.1 op N.2 with
             | error x => rfl
-            | ok b => exact ⟨_, rfl, by simp [LSt.groups]⟩
+            | ok b => exact ⟨_, rfl, by simp [groupsOf, LastPy.last]⟩
         | val v =>
           simp only [node_isVar_val, Bool.false_eq_true, if_false, node_value_val, _get_env_eq_model d e h hn]
           cases Mk.lookupEnv e rhs.value with
@@ -519,7 +521,7 @@ theorem _evaluate_markers__fuel_eq_model (O : PyMk.Oracle) (d : List (PyVal × P
             generalize Mk.normalize O.toExt v w rhs.value = N
             cases Mk.evalOp O.toExt N.1 op N.2 with
             | error x => rfl
-            | ok b => exact ⟨_, rfl, by simp [LSt.groups]⟩
+            | ok b => exact ⟨_, rfl, by simp [groupsOf, LastPy.last]⟩
       | bool t =>
         simp only [ofM, stepRes, isinstance_str]
         simp (config := {decide := true}) only [List.contains_cons, List.contains_nil, BEq.rfl, Bool.true_or, Bool.or_true, truthy_bool, Bool.not_true, Bool.false_eq_true, if_false, if_true,
@@ -528,12 +530,12 @@ theorem _evaluate_markers__fuel_eq_model (O : PyMk.Oracle) (d : List (PyVal × P
         cases h1 : t == Mk.s_or with
         | true =>
           simp only [Bool.or_true, Bool.not_true, Bool.false_eq_true, if_false, if_true]
-          exact ⟨_, rfl, by simp [LSt.groups]⟩
+          exact ⟨_, rfl, by simp [groupsOf, LastPy.last]⟩
         | false =>
           cases h2 : t == Mk.s_and with
           | true =>
             simp only [Bool.or_false, Bool.true_or, Bool.not_true, Bool.false_eq_true, if_false, if_true]
-            exact ⟨_, rfl, by simp [LSt.groups]⟩
+            exact ⟨_, rfl, by simp [groupsOf, LastPy.last]⟩
           | false => simp [assertionError, excName, rawName]
 
 
